@@ -105,7 +105,7 @@ def run(ck):
         Xv = xr.make_X('random', 50, d, rng); yv = xr.make_y(task, Xv, rng)
         # categorical columns declared to the estimator (one-hot groups + numerical columns), with the leaf option `fast_categorical` absent / on / off: the fresh
         # model that loads the state builds its leaves from the same parameters as the fit did
-        cat_regime = (i % 10 == 8) and (i % 7 not in (3, 5)) and (i % 9 != 7) and not depth0
+        cat_regime = (i % 10 in (1, 8)) and (i % 7 not in (3, 5)) and (i % 9 != 7) and not depth0
         cat_kw = {}
         if cat_regime:
             levels_c = [3, 2]; nnum_c = 2; d = nnum_c + sum(levels_c)
@@ -118,8 +118,16 @@ def run(ck):
             o_ = nnum_c; cidx = []
             for lv in levels_c:
                 cidx.append(torch.arange(o_, o_ + lv)); o_ += lv
-            cat_kw = dict(categorical_info=dict(numerical_indices=torch.arange(nnum_c), categorical_indices=cidx, categorical_vectors=[torch.eye(lv) for lv in levels_c]))
-            fc_mode = ['absent', True, False][(i // 10) % 3]
+            # every other time: the columns of a group are listed in another order than they sit in the matrix, and the category embeddings are not the identity (the position
+            # of a column in its group says which embedding row it selects — that association is part of the state that has to come back)
+            if i % 10 == 8 and (i // 10) % 2 == 0:
+                cidx = [ix.flip(0) if g % 2 == 0 else ix[torch.randperm(len(ix))] for g, ix in enumerate(cidx)]
+                cvec = [torch.tensor(rng.standard_normal((lv, lv)).astype(np.float32)) + torch.eye(lv) for lv in levels_c]
+                ck.count('categorical groups listed in non-ascending column order, non-identity embeddings')
+            else:
+                cvec = [torch.eye(lv) for lv in levels_c]
+            cat_kw = dict(categorical_info=dict(numerical_indices=torch.arange(nnum_c), categorical_indices=cidx, categorical_vectors=cvec))
+            fc_mode = [True, 'absent', False][(i // 10) % 3] if i % 10 == 8 else ['absent', False, True][(i // 10) % 3]
             if kern in ('l2_high_dim', 'sum_power_laplace') and fc_mode is True:
                 fc_mode = 'absent'
             extra = dict(extra, **({} if fc_mode == 'absent' else dict(fast_categorical=fc_mode)))
